@@ -370,6 +370,13 @@ class C02(CtxCheck):
                     types, name = KEYS[k]
                     if all((t, name) not in m.res for t in types):
                         ops.append(("op", m.idx, ("add", k, False, f"v:c{m.idx}:{k}", "s" if k == "Bd" else "m")))
+                if m.parent is not None and m.parent.state == "open" and not any(op[0] == "op" and op[2][0] == "boomp" for op in u.hist):
+                    ops.append(("op", m.idx, ("boomp",)))
+                # a two-type add that is refused because its SECOND type is taken (here or inherited): nothing of it becomes visible anywhere
+                for k in ("ABd", "BAd"):
+                    types, name = KEYS[k]
+                    if (types[0], name) not in m.res and (types[1], name) in m.res and not any(op[0] == "op" and op[2][:2] == ("add", k) and "x:" in op[2][3] for op in u.hist):
+                        ops.append(("op", m.idx, ("add", k, False, f"x:c{m.idx}:{k}", "m")))
                 for k, fk in (("Ad", "sync"), ("BAd", "async"), ("Ax", "sync")):
                     types, name = KEYS[k]
                     if all((t, name) not in m.fac for t in types):
